@@ -743,6 +743,8 @@ def history_of(events):
                     continue
                 if o["op"] == "write" and r["sri"] != [{"a": o["algo"], "d": o["data"]}]:
                     continue
+                if o["op"] == "write" and r.get("meta", "null") != o.get("meta", "null"):
+                    continue            # (another writer's record of the same key and data)
                 used.add((k, idx))
                 tm = r["time"]
                 break
